@@ -155,6 +155,23 @@ def run(ctx):
                         "desc": [list(x) for x in desc], "canon": [list(x) for x in canon]},
                        {"event": "Relation", "rel": "thickness_equals_radius", "mb": quant.mb(dt),
                         "desc": [list(x) for x in desc], "canon": [list(x) for x in canon]}])
+    # bubbles / low-index droplets (every layer's index below the medium's), up to large sizes: layers that share
+    # one index scatter like the plain sphere
+    for mrel in (0.75, 0.9):
+        for xb in (8.0, 30.0, 60.0, 150.0):
+            rb = xb / K
+            try:
+                sb = calc_scat_matrix(ang, Sphere(n=mrel * NMED, r=rb, center=(0, 0, 0)), theory=Mie(), **opts).values
+                worst_b = 0.0
+                for fr in ([0.5, 1.0], [0.3, 0.6, 1.0], [0.2, 0.5, 0.8, 1.0]):
+                    sl = calc_scat_matrix(ang, Sphere(n=[mrel * NMED] * len(fr), r=[f_ * rb for f_ in fr], center=(0, 0, 0)),
+                                          theory=Mie(), **opts).values
+                    worst_b = max(worst_b, rel(sl, sb, float(np.max(np.abs(sb)))))
+                ctx.case(("low_index_layers", mrel, xb), nontrivial=True)
+                traces.append([{"event": "Relation", "rel": "layers_equal_canonical", "mb": quant.mb(worst_b),
+                                "desc": [["low_index", mrel, xb]], "canon": [["homogeneous", mrel, xb]]}])
+            except Exception as e:
+                ctx.violation("layers/exception", {"desc": ["low_index", mrel, xb], "exc": repr(e)})
     nedge = 0
     for e in g.edges:
         a, b = g.states[e[0]], g.states[e[3]]
